@@ -309,6 +309,23 @@ def abc_method(rep, repo, rule):
             probs.append('fields rewritten: %s' % {k: v[-25:] for k, v in st.items()})
         if nt(ps.ret) != D:
             probs.append('returns `%s`' % nt(ps.ret)[:50])
+        # nothing else of the description is edited (optional, varargs, ...)
+        for e in ps.events:
+            if e is ff[0]:
+                continue
+            if e.kind == 'call' and isinstance(e.r.func, ast.Attribute) and \
+                    nt(e.r.func.value).startswith(D + '.') and e.r.func.attr in (
+                        'pop', 'popitem', 'clear', 'update', 'setdefault', 'remove',
+                        'append', 'extend', 'insert', '__setitem__', '__delitem__'):
+                probs.append('also edits the description: `%s`'
+                             % nt(e.r).replace(D, '<method>')[:70])
+            if e.kind in ('del', 'aug') and nt(e.r).startswith(D):
+                probs.append('also edits the description: `%s %s`'
+                             % (e.kind, nt(e.r).replace(D, '<method>')[:60]))
+            if e.kind == 'store' and isinstance(e.r, ast.Subscript) and \
+                    nt(e.r.value).startswith(D + '.'):
+                probs.append('also edits the description: `%s[...] = ...`'
+                             % nt(e.r.value).replace(D, '<method>')[:60])
     if not n:
         probs.append('no describing path')
     rep.check(rule, 'common/__init__.py:ABCInterfaceClass.__method_from_function',
